@@ -155,3 +155,39 @@ func H_C11_unregistered_types() {
 	_, n, p := refParse(fresh)
 	vAssert("well-formed", p.err == "" && n == len(fresh))
 }
+
+type ZBase struct {
+	Id int32
+}
+
+type ZItem struct {
+	ZBase
+	Name string
+	Qty  int32
+}
+
+// H_C05_promoted_names: the class definition lists a name that the Go struct has only through an embedded struct
+// (a peer that flattens inheritance sends that). Whether such a field counts as a counterpart is not fixed by the
+// property; what is: decoding succeeds, the value lands in that field or nowhere, and the fields after it are
+// undisturbed.
+func H_C05_promoted_names() {
+	tm, _ := vExtractAll(&ZItem{})
+	x := vInt32("x")
+	var def []string
+	var vals []byte
+	switch vChoice("shape", 3) {
+	case 0:
+		def, vals = []string{"id", "name", "qty"}, refCat(refInt(x), refStr("n"), refInt(7))
+	case 1:
+		def, vals = []string{"name", "id", "qty"}, refCat(refStr("n"), refInt(x), refInt(7))
+	case 2: // the embedded struct as the nested object this library's own encoder sends, and the flat name too
+		def = []string{"zBase", "name", "qty", "id"}
+		vals = refCat(refClassDef("ZBase", []string{"id"}), []byte{0x61}, refInt(5), refStr("n"), refInt(7), refInt(x))
+	}
+	in := refCat(refClassDef("ZItem", def), []byte{0x60}, vals)
+	out, err := ToObject(in, tm)
+	vAssert("decode-noerr", err == nil)
+	g, ok := out.(*ZItem)
+	vAssert("later-fields-undisturbed", ok && g != nil && g.Name == "n" && g.Qty == 7)
+	vAssert("value-lands-there-or-nowhere", g.Id == x || g.Id == 0 || g.Id == 5)
+}
